@@ -1,4 +1,150 @@
-(* placeholder until theory/OptionTheory.v lands *)
-From MSDM Require Import model.Option.
-Theorem c15_placeholder : True. Proof. exact I. Qed.
-Print Assumptions c15_placeholder.
+(* C15 — augmented sub-tasks and options preserve the base MDP and stop at their goals.
+   Statements only; proofs are in theory/OptionTheory.v, definitions in model/Option.v. *)
+From Coq Require Import QArith List Bool String Arith.
+From MSDM Require Import model.Option theory.OptionTheory.
+Import ListNotations.
+Local Open Scope string_scope.
+Local Open Scope list_scope.
+Local Open Scope nat_scope.
+
+(* 1. FULL statement "every non-overridden component, the discount rate and the state and
+      action lists of augment(mdp, ...) equal the base MDP's": REFUTED for augment as
+      option.py writes it (witness: discount_rate 1/2 in the instance dict, class default 1). *)
+Theorem augment_preserves_discount_refuted :
+  ~ (forall o ov o', augment o ov = Some o' ->
+     forall k, In k (components ++ ["discount_rate"] ++ (if is_tabular o then tab_components else [])) ->
+               assoc k ov = None -> getattr o' k = getattr o k).
+Proof. exact OptionTheory.augment_preserves_discount_refuted. Qed.
+Print Assumptions augment_preserves_discount_refuted.
+
+Theorem augment_preserves_discount_refuted_witness :
+  exists o ov o' k,
+    augment o ov = Some o' /\ In k (preserved_keys o) /\ assoc k ov = None /\
+    getattr o k = Some (VNum (1 # 2)%Q) /\ getattr o' k = Some (VNum 1%Q) /\
+    getattr o' k <> getattr o k.
+Proof. exact OptionTheory.augment_preserves_discount_refuted_witness. Qed.
+Print Assumptions augment_preserves_discount_refuted_witness.
+
+(* 2. What holds today, for ALL objects and override sets. *)
+Theorem augment_preserves_partial : forall o ov o',
+  augment o ov = Some o' ->
+  (forall k, In k components \/ (is_tabular o = true /\ In k tab_components) ->
+             assoc k ov = None -> getattr o' k = getattr o k) /\
+  (forall k, In k components \/ (is_tabular o = true /\ In k tab_components) ->
+             forall w, assoc k ov = Some w -> getattr o' k = Some w) /\
+  (forall k, ~ In k (copied_keys copied_plain o) -> assoc k (inst o) = None ->
+             (forall body, mro_lookup k (mro o) <> Some (CFun body)) ->
+             getattr o' k = getattr o k) /\
+  (forall k v, ~ In k (copied_keys copied_plain o) -> mro_lookup k (mro o) = Some (CVal v) ->
+             getattr o' k = Some v).
+Proof. exact OptionTheory.augment_preserves_partial. Qed.
+Print Assumptions augment_preserves_partial.
+
+(* 3. The full statement holds for every variant of augment that also copies discount_rate
+      (what a fix of option.py would be: model/Option.v copied_plain := ["discount_rate"]). *)
+Theorem augment_preserves_if_discount_copied : forall extra, In "discount_rate" extra ->
+  forall o ov o', augment_gen extra o ov = Some o' ->
+  forall k, In k (components ++ ["discount_rate"] ++ (if is_tabular o then tab_components else [])) ->
+            assoc k ov = None -> getattr o' k = getattr o k.
+Proof. exact OptionTheory.augment_gen_preserves. Qed.
+Print Assumptions augment_preserves_if_discount_copied.
+
+(* 4. The sub-goal option's sub-task: base dynamics, base reward clipped only at
+      non-terminal successors, sub-goal absorbing set; base discount if copied / class-level. *)
+Theorem subtask_discount_rewards : forall extra o so o',
+  sub_task_gen extra o so = Some o' ->
+  getattr o' "next_state_dist" = getattr o "next_state_dist" /\
+  getattr o' "actions" = getattr o "actions" /\
+  (exists rw, getattr o "reward" = Some (VRew rw) /\
+              getattr o' "reward" = Some (VRew (clipped_reward so rw))) /\
+  (exists ab, getattr o' "is_absorbing" = Some (VAbs ab) /\
+              forall s, ab s = true <-> (memb s (so_subgoals so) = true \/
+                 (so_include_abs so = true /\ exists ab0, getattr o "is_absorbing" = Some (VAbs ab0) /\ ab0 s = true))) /\
+  getattr o' "initial_state_dist" = Some (VInit (uniform (so_initial so))) /\
+  (In "discount_rate" extra -> getattr o' "discount_rate" = getattr o "discount_rate") /\
+  (forall g, ~ In "discount_rate" extra -> mro_lookup "discount_rate" (mro o) = Some (CVal g) ->
+             getattr o' "discount_rate" = Some g).
+Proof. exact OptionTheory.subtask_gen_spec. Qed.
+Print Assumptions subtask_discount_rewards.
+
+Theorem clipped_reward_spec : forall so rw s a ns,
+  (memb ns (so_subgoals so) = true -> clipped_reward so rw s a ns = rw s a ns) /\
+  (so_maxr so = None -> clipped_reward so rw s a ns = rw s a ns) /\
+  (forall m, so_maxr so = Some m -> memb ns (so_subgoals so) = false ->
+     ((rw s a ns <= m)%Q -> clipped_reward so rw s a ns = rw s a ns) /\
+     ((m < rw s a ns)%Q -> clipped_reward so rw s a ns = m)).
+Proof. exact OptionTheory.clipped_reward_spec. Qed.
+Print Assumptions clipped_reward_spec.
+
+(* 5. Executing an option: ends exactly at the first terminal state of the stream's
+      trajectory, or raises iff none of the states at times 0..max_steps-2 is terminal. *)
+Theorem option_stops : forall o term ms ch s0 rw,
+  getattr o "reward" = Some (VRew rw) ->
+  augment o [("is_absorbing", VAbs term)] <> None ->
+  (forall r, option_run_on o term ms ch s0 = Ret r ->
+     let k := List.length (steps r) in
+     k + 2 <= ms /\
+     term (final r) = true /\ final r = state_at ch s0 k /\
+     (forall j, j < k -> term (state_at ch s0 j) = false) /\
+     (forall j, j < k -> nth_error (steps r) j = Some (step_at rw ch 0 s0 j))) /\
+  (option_run_on o term ms ch s0 = RaiseMaxSteps <->
+     forall j, j + 2 <= ms -> term (state_at ch s0 j) = false) /\
+  ((exists r, option_run_on o term ms ch s0 = Ret r) <->
+     exists k, k + 2 <= ms /\ term (state_at ch s0 k) = true /\
+               forall j, j < k -> term (state_at ch s0 j) = false) /\
+  option_run_on o term ms ch s0 <> RaiseOther.
+Proof. exact OptionTheory.option_stops. Qed.
+Print Assumptions option_stops.
+
+(* 6. The semi-MDP's outcome distribution for an option. *)
+Theorem smdp_outcome_empirical : forall m s op streams d,
+  0 < sm_n m ->
+  smdp_nstr m s (Opt op) streams = Ret d ->
+  exists gamma sims,
+    getattr (sm_mdp m) "discount_rate" = Some (VNum gamma) /\
+    List.length sims = sm_n m /\
+    (forall i, i < sm_n m ->
+       option_run_on (sm_mdp m) (op_terminal op) (op_max_steps op) (nth i streams default_stream) s
+         = Ret (nth i sims (mkSim [] 0))) /\
+    (forall r, In r sims ->
+       fst (fst (sim_outcome gamma r)) = final r /\
+       snd (fst (sim_outcome gamma r)) = List.length (steps r) /\
+       (snd (sim_outcome gamma r) == disc_sum gamma (map s_reward (steps r)))%Q) /\
+    (forall P, respects okey_eqb P ->
+       (mass P d == qnat (countb (fun r => P (sim_outcome gamma r)) sims) / qnat (sm_n m))%Q) /\
+    keys_distinct okey_eqb (map fst d) /\
+    (mass (fun _ => true) d == 1)%Q /\
+    (forall P, respects nt_eqb P ->
+       (mass P (smdp_marginal_nt d) == mass (fun k => P (fst k)) d)%Q) /\
+    (forall P : nat -> bool,
+       (mass P (smdp_marginal_n d) == mass (fun k => P (fst (fst k))) d)%Q) /\
+    (smdp_expected_reward d == lsum (fun k => snd k) (map (sim_outcome gamma) sims) / qnat (sm_n m))%Q.
+Proof. exact OptionTheory.smdp_outcome_empirical. Qed.
+Print Assumptions smdp_outcome_empirical.
+
+Theorem smdp_outcome_raises : forall m s op streams,
+  smdp_nstr m s (Opt op) streams = RaiseMaxSteps ->
+  exists i, i < sm_n m /\
+    option_run_on (sm_mdp m) (op_terminal op) (op_max_steps op) (nth i streams default_stream) s = RaiseMaxSteps /\
+    forall j, j < i -> exists r,
+      option_run_on (sm_mdp m) (op_terminal op) (op_max_steps op) (nth j streams default_stream) s = Ret r.
+Proof. exact OptionTheory.smdp_outcome_raises. Qed.
+Print Assumptions smdp_outcome_raises.
+
+(* 7. A primitive action yields its one-step outcomes with duration 1. *)
+Theorem smdp_primitive : forall m s a streams acts tr rw,
+  getattr (sm_mdp m) "actions" = Some (VActs acts) ->
+  getattr (sm_mdp m) "next_state_dist" = Some (VTrans tr) ->
+  getattr (sm_mdp m) "reward" = Some (VRew rw) ->
+  (memb a (acts s) = false -> smdp_nstr m s (Prim a) streams = RaiseOther) /\
+  (memb a (acts s) = true ->
+   exists d, smdp_nstr m s (Prim a) streams = Ret d /\
+     (forall k, In k (map fst d) ->
+        exists ns, In ns (map fst (tr s a)) /\ k = (ns, 1, rw s a ns)) /\
+     (forall P, respects okey_eqb P ->
+        (mass P d == mass (fun ns => P (ns, 1%nat, rw s a ns)) (tr s a))%Q) /\
+     keys_distinct okey_eqb (map fst d) /\
+     (NoDup (map fst (tr s a)) ->
+        d = map (fun ep => ((fst ep, 1, rw s a (fst ep)), snd ep)) (tr s a))).
+Proof. exact OptionTheory.smdp_primitive. Qed.
+Print Assumptions smdp_primitive.
